@@ -234,7 +234,36 @@ func c14Engine() *Engine {
 			ren := r.Intn(len(tgt.Cols))
 			for j, cc := range tgt.Cols {
 				if j == ren {
-					cc.Name += "x"
+					// the new name may sort before or after the old one and the other
+					// columns (suffix, prefix, another word, other case)
+					switch r.Intn(6) {
+					case 0:
+						cc.Name += "x"
+					case 1:
+						cc.Name = "A" + cc.Name
+					case 2:
+						cc.Name = "zz" + cc.Name
+					case 3:
+						cc.Name = []string{"Aaa", "Size", "Mid", "zzz", "B0", "_"}[r.Intn(6)]
+					case 4:
+						if l := strings.ToLower(cc.Name); l != cc.Name {
+							cc.Name = l
+						} else {
+							cc.Name = strings.ToUpper(cc.Name) + "_"
+						}
+					default:
+						cc.Name = cc.Name[:len(cc.Name)-1] + "0"
+					}
+					// it must be a name the bucket does not have
+					for clash := true; clash; {
+						clash = false
+						for _, oc := range tgt.Cols {
+							if oc.Name == cc.Name {
+								clash = true
+								cc.Name += "q"
+							}
+						}
+					}
 				}
 				p.Cols = append(p.Cols, cc)
 				p.SrcIdx = append(p.SrcIdx, j)
@@ -402,8 +431,23 @@ func c14Engine() *Engine {
 
 // ---- C15 ----
 
+// genName returns a column name of exactly n bytes. One name in four is not
+// plain ASCII: it mixes 2-, 3- and 4-byte UTF-8 characters (so that byte length
+// and character count differ, which matters around the 32-byte header field).
 func genName(r *simrt.Rand, n int) string {
 	const al = "abcdefghijklmnopqrstuvwxyzABCDEFGHIJKLMNOPQRSTUVWXYZ0123456789_"
+	if n >= 2 && r.Pct(25) {
+		wide := []string{"é", "ß", "ж", "日", "本", "値", "終", "€", "😀", "𝛑"}
+		var sb strings.Builder
+		for sb.Len() < n {
+			c := wide[r.Intn(len(wide))]
+			if r.Pct(30) || sb.Len()+len(c) > n {
+				c = string(al[r.Intn(len(al))])
+			}
+			sb.WriteString(c)
+		}
+		return sb.String()
+	}
 	b := make([]byte, n)
 	for i := range b {
 		b[i] = al[r.Intn(len(al))]
@@ -460,6 +504,8 @@ func c15Engine() *Engine {
 			switch lenClass {
 			case 1:
 				n = 31 + r.Intn(3) // around the 32-byte name field
+			case 4:
+				n = 30 + r.Intn(12) // just below / above it (wide characters: fewer than 32 characters)
 			case 2:
 				if j%3 == 0 {
 					n = 33 + r.Intn(40)
